@@ -11,7 +11,7 @@ from rnaverif.runner import D, HarnessError, ShardResult, check_case, run_hypoth
 PROP_ID = "C16"
 LEVEL = "exploration"
 RULE = (
-    "Domains: (a) all matchings on <=N positions exhaustively (N=8 quick, 11 thorough); (b) Hypothesis blow-ups "
+    "Domains: (a) all matchings on <=N positions exhaustively (N=9 quick, 11 thorough); (b) Hypothesis blow-ups "
     "and path/star-shaped conflict graphs with components of <=6 (quick) / <=8 (thorough) stems and <=20000 "
     "expected notations. Oracle built WITHOUT permutations: per component all proper colourings that satisfy the "
     "greedy-stability (Grundy) condition, cartesian product over components; compared as sets of per-stem level "
@@ -102,7 +102,7 @@ def classify(case):
 def plan(tier, seed):
     specs = []
     if tier == "quick":
-        N, K, maxcomp, hyp, shaped_n = 8, 8, 6, [(60, 7)] * 7, 40
+        N, K, maxcomp, hyp, shaped_n = 9, 16, 6, [(120, 7)] * 14, 120
     else:
         N, K, maxcomp, hyp, shaped_n = 11, 64, 8, [(500, 10)] * 16, 600
     for k in range(K):
